@@ -110,7 +110,9 @@ def harnesses(tier, seed):
         n = ctx.choose(ns, "n")
         p = ctx.choose(psets(st, n), "params")
         for y in (ys_lin if st.startswith("lin") else ys_exp):
-            _judge(ctx, {"strategy": st, "x": list(xp), "y": list(y), "n": n, "p": RC.pkey(p)})
+            yi = sum(y)
+            _judge(ctx, {"strategy": st, "x": list(xp), "y": list(y), "n": n, "p": RC.pkey(p),
+                         "y_off": float(2 ** 40) if yi % 7 == 3 else 0, "twice": yi % 5 == 1})
         if n == 5 and xp == W.XPATTERNS[0] and st == "expada" and p.get("exp") == 2 and p.get("alpha") == 1:
             ctx.sample({"strategy": st, "x": list(xp), "n": n, "p": RC.pkey(p), "y": "all of the value lattice ^5"})
 
